@@ -9,7 +9,14 @@ package display
 //@   requires e != nil
 //@   assigns anyof("ui.Hint", "*"), anyof("completion.Engine", "*"), anyof("keymap.Engine", "local")
 
+// AcceptLine (C11: "the cursor is at the start of a fresh row below the input"): what can be said without a
+// terminal model is that, on every path, the last thing the function itself writes is CR LF, after the right
+// prompt has been reprinted (at_call! : the call is made on every returning path). Where the cursor was before
+// that (the relative moves) needs a terminal oracle and is not claimed. The coordinate computation and the
+// prompt callbacks are outside this contract (assume_nopanic); the frame is checked.
 //@ func (*Engine).AcceptLine
-//@   trusted terminal output only (moves the terminal cursor below the line, reprints the right prompt); recomputes the display engine's own coordinates; touches neither the line, the cursor, the selection, the registers nor the history (A-COMPONENTS)
-//@   requires e != nil
-//@   assigns anyof("display.Engine", "*"), anyof("ui.Prompt", "*")
+//@   props C11
+//@   assume_nopanic coordinate computation (computeCoordinates), the prompt callbacks and the terminal width query are outside this contract
+//@   requires e != nil && e.prompt != nil
+//@   assigns anyof("display.Engine", "*"), anyof("ui.Prompt", "*"), anyof("core.Cursor", "pos"), anyof("core.Cursor", "mark"), anyof("core.Keys", "*")
+//@   at_call fmt.Print#2! [ends-with-newline-return] len(a0) == 1 && typeis(a0[0], "string") && asstr(a0[0]) == "\r\n"
